@@ -519,6 +519,7 @@ func vmHooks(c *Ctx, m *vmModel) Hooks {
 		return tagV("stk", j)
 	}
 	var h Hooks
+	h.BinOp = vmCmpBinOp
 	h.SameEffect = func(a, b *State) bool { return pay(a).effectKey() == pay(b).effectKey() }
 	h.LoopNeutral = func(a, b *State) bool { return pay(a).counters() == pay(b).counters() }
 	h.Load = func(in *Interp, st *State, e ast.Expr) (Value, bool) {
@@ -1205,4 +1206,16 @@ func (m *vmModel) inspectArm(c *Ctx, arm *vmArm, f func(ast.Node) bool) {
 	for _, n := range m.armNodes(c, arm) {
 		ast.Inspect(n, f)
 	}
+}
+
+// vmCmpBinOp keeps the shape of an equality between two stack values: the value written is "cmp(stk(-2) == stk(-1))".
+func vmCmpBinOp(l Value, op token.Token, r Value) (Value, bool) {
+	if op != token.EQL && op != token.NEQ {
+		return Value{}, false
+	}
+	isStk := func(v Value) bool { return v.K == vTag && strings.HasPrefix(v.String(), "stk(") }
+	if isStk(l) && isStk(r) {
+		return tagV("cmp", l.String()+" "+op.String()+" "+r.String()), true
+	}
+	return Value{}, false
 }
